@@ -15,7 +15,7 @@ from typing import Any, Dict, List, Optional, Tuple
 from mtsa.absint import K, R, S, U, V, State
 from mtsa.index import ClassInfo, FunctionInfo, Repo, dotted, norm
 from mtsa.report import AnalysisError
-from .common import RepoInterp
+from .common import origin_token, RepoInterp
 
 TY = "monkeytype.typing"
 ANY = S("mod:typing.Any")
@@ -102,6 +102,9 @@ def members(t: V) -> Tuple[V, ...]:
     return (t,)
 
 
+EMPTY_KINDS = ("List", "Set", "Dict", "DefaultDict")
+
+
 def admits(res: V, t: V) -> bool:
     """Independent oracle: every value of abstract type t is a value of abstract type res."""
     if res == t or res == ANY or res == S(OBJ):
@@ -134,8 +137,10 @@ def admits(res: V, t: V) -> bool:
             if len(ta) == 2 and ta[1] == ELL:
                 return False
             return len(ra) == len(ta) and all(admits(x, y) for x, y in zip(ra, ta))
-        # an empty container C[Any] is a value-level subset of any C[...] (it has no elements)
-        if all(a == ANY for a in ta) and ta:
+        # an empty container C[Any] is a value-level subset of any C[...] (it has no elements) - for the kinds whose
+        # C[Any] is how inference records an EMPTY value.  Iterator[Any] is how a generator object is recorded (its items
+        # are never looked at), Type[Any] / Generator[Any, ..] are not produced for empty values either.
+        if all(a == ANY for a in ta) and ta and to in EMPTY_KINDS:
             return True
         return len(ra) == len(ta) and all(admits(x, y) for x, y in zip(ra, ta))
     return False
@@ -196,6 +201,9 @@ class RewriterScenario:
             m = self.repo.method(self.ci, attr)
             if m is not None:
                 return R("boundmethod", name=K(attr))
+            v_cls = RepoInterp.on_attr(self.ri, obj, attr, node, st)  # a class-level constant read through the instance
+            if v_cls is not None:
+                return v_cls
             return U("self." + attr)
         if isinstance(obj, R) and obj.kind == "generic":
             if attr == "__args__":
@@ -204,7 +212,7 @@ class RewriterScenario:
                     return U("no __args__")
                 return obj.fields["args"]
             if attr == "__origin__":
-                return S("origin:" + obj.fields["origin"].v)
+                return origin_token(obj.fields["origin"].v)
             if attr == "__module__":
                 return K("typing")
             if attr in ("__bases__", "__mro__", "__name__", "__qualname__"):
@@ -225,7 +233,7 @@ class RewriterScenario:
         if isinstance(obj, S) and obj.name.startswith("mod:typing.") and obj != ANY:
             # a bare alias (typing.Callable, typing.List, ...)
             if attr == "__origin__":
-                return S("origin:" + obj.name[len("mod:typing."):])
+                return origin_token(obj.name[len("mod:typing."):])
             if attr == "__module__":
                 return K("typing")
             if attr in ("__args__", "__bases__", "__mro__", "__qualname__"):
@@ -407,7 +415,7 @@ ALPHABET: List[V] = [
     g("List", INT), g("List", ANY), g("List", g("List", ANY)), g("Set", ANY), g("Set", INT),
     g("Dict", STR, INT), g("Dict", STR, STR), g("Dict", INT, INT), g("Dict", ANY, ANY), g("DefaultDict", STR, INT),
     g("Tuple"), g("Tuple", INT), g("Tuple", INT, INT), g("Tuple", STR), g("Type", BASE),
-    S("mod:typing.Callable"), g("Iterator", ANY), g("Generator", INT, NONE_T, NONE_T), g("Generator", INT, NONE_T, STR),
+    S("mod:typing.Callable"), g("Iterator", ANY), g("Iterator", INT), g("Generator", INT, NONE_T, NONE_T), g("Generator", INT, NONE_T, STR),
     R("generic", origin=K("Tuple"), args=K(None)),  # bare Tuple
 ]
 SMALL = [INT, STR, NONE_T, L1, L2, OTH, g("List", INT), g("List", ANY), g("Dict", STR, INT), g("Dict", STR, STR), g("Tuple"), g("Tuple", INT)]
